@@ -30,7 +30,7 @@ def chks(cs):
     return coq_list(["(%d%%N, %s)" % (c["id"], chk(c["def"])) for c in (cs or [])])
 
 
-def step(s):
+def step(s, wf=False):
     op = s["op"]
     i = s.get("id", 0)
     if op == "addsvc":
@@ -39,8 +39,8 @@ def step(s):
         return "SRemoveSvc %d" % i
     if op == "rmsvcraw":
         return "SRemoveSvcRaw %d %s" % (i, nl(s.get("cids") or []))
-    if op == "addchk":
-        return "SAddChk %d %s %d %s" % (i, chk(s["chk"]), s.get("tok", 0), coq_bool(s.get("loc", False)))
+    if op == "addchk":  # agent-style histories go through the agent's guard (service must be live)
+        return "%s %d %s %d %s" % ("SAddChkAgent" if wf else "SAddChk", i, chk(s["chk"]), s.get("tok", 0), coq_bool(s.get("loc", False)))
     if op == "rmchk":
         return "SRemoveChk %d" % i
     if op == "updchk":
@@ -66,7 +66,7 @@ def step(s):
 def case_to_coq(c):
     h = c["hist"]
     cfg = "(Cfg %d %d %d 1 %d %d)" % (h["user"], h["agent"], h["cfg"], CONSUL, CONSUL)
-    steps = coq_list([step(s) for s in h["steps"]])
+    steps = coq_list([step(s, h["wf"]) for s in h["steps"]])
     faults = coq_list([OUTCOME[f] for f in c["faults"]])
     exp = coq_list([coq_list([nl(r) for r in st]) for st in c["obs"]])
     return "Case %s\n   %s\n   %s\n   %s" % (cfg, steps, faults, exp)
@@ -89,7 +89,7 @@ def run(ctx):
     info, ok = vlib.proof_stage(ctx, PROP_FILE, ["Run/C16.v"])
     cov = dict(info)
     # obligations: every proved statement of the property file and of the AE development it rests on
-    dev = ["Properties/C16.v"] + ["AE/%s.v" % f for f in ("Basics", "Steps", "Inv", "Proofs", "Conv", "Hist", "Witness")]
+    dev = ["Properties/C16.v"] + ["AE/%s.v" % f for f in ("Basics", "Steps", "Inv", "Proofs", "Any", "Conv", "Hist", "Witness")]
     n_stmts = sum(len(vlib.STMT.findall(open(os.path.join(vlib.COQ, f), encoding="utf-8").read())) for f in dev)
     cov["obligations"] = n_stmts
     cov["discharged"] = n_stmts if ok else 0
